@@ -44,7 +44,7 @@ MODS = ["cspuz_core", "enigma_csp", "pycsugar", "z3"]
 TRUE_SPELL = ["true", "True", "TRUE", "1", "tRuE"]
 FALSE_SPELL = ["false", "False", "FALSE", "0"]
 GARBAGE = ["", "2", "tru", "maybe", " true", "none", "-1", "t"]
-GRAPH_FNS = ["avc", "avc_acyclic", "division_connected", "single_cycle", "single_path", "crossable", "with_borders"]
+GRAPH_FNS = ["avc", "avc_acyclic", "division_connected", "single_cycle", "single_path", "crossable", "cycle_crossable", "with_borders", "avc_grid", "with_borders_grid"]
 RECIPIENT = {"z3": "z3", "sugar": "subprocess", "sugar_extended": "subprocess", "csugar": "pycsugar", "enigma_csp": "enigma_csp", "cspuz_core": "cspuz_core"}
 MOD_OF = {"z3": "z3", "csugar": "pycsugar", "enigma_csp": "enigma_csp", "cspuz_core": "cspuz_core"}
 
@@ -113,7 +113,7 @@ def generate(rng, tier, index):
             flag = rng.choice([None, None, True, False])
             if fn == "division_connected":
                 flag = None  # the public function has no per-call override
-            ops.append({"op": "graph", "fn": fn, "flag": flag})
+            ops.append({"op": "graph", "fn": fn, "flag": flag, "same_solver": rng.random() < 0.3})
     return {"prop": ID, "env": env, "installed": installed, "ops": ops}
 
 
@@ -296,10 +296,10 @@ def _has_native(cspuz, constraints):
     return any(walk(c) for c in constraints)
 
 
-def _call_graph(cspuz, fn, flag):
+def _call_graph(cspuz, fn, flag, solver=None):
     from cspuz import graph as G
 
-    s = cspuz.Solver()
+    s = solver if solver is not None else cspuz.Solver()
     g = G.Graph(4)
     for u, v in ((0, 1), (1, 2), (2, 3), (3, 0)):
         g.add_edge(u, v)
@@ -316,6 +316,14 @@ def _call_graph(cspuz, fn, flag):
         G.active_edges_single_path(s, s.bool_array(4), g, **kw)
     elif fn == "crossable":
         G.active_edges_connected_crossable(s, cspuz.BoolGridFrame(s, 1, 1), **kw)
+    elif fn == "cycle_crossable":
+        G.active_edges_single_cycle_crossable(s, cspuz.BoolGridFrame(s, 1, 1), **kw)
+    elif fn == "avc_grid":
+        G.active_vertices_connected(s, s.bool_array((2, 2)), **kw)
+    elif fn == "with_borders_grid":
+        from cspuz.grid_frame import BoolInnerGridFrame
+
+        G.division_connected_variable_groups_with_borders(s, group_size=s.int_array((2, 2), 1, 4), is_border=BoolInnerGridFrame(s, 2, 2), **kw)
     elif fn == "with_borders":
         G.division_connected_variable_groups_with_borders(s, group_size=[None, 2, None, None], is_border=s.bool_array(4), graph=g, **kw)
     else:
@@ -331,6 +339,7 @@ def _call_graph(cspuz, fn, flag):
 def run(sc) -> RunResult:
     res = RunResult()
     core.fresh_z3_context()
+    _LAST_SOLVER.clear()
     res.log("start", ID, sc.get("seed"))
     env = dict(sc["env"])
     installed = set(sc["installed"])
@@ -550,15 +559,26 @@ def _do_call(res, world, cspuz, n_op, op, cfg, installed, z3_cached):
     return z3_cached or b == "z3"
 
 
+_LAST_SOLVER = {}
+
+
 def _do_graph(res, cspuz, n_op, op, cfg):
     fn, flag = op["fn"], op["flag"]
-    field = "use_graph_division_primitive" if fn == "with_borders" else "use_graph_primitive"
+    field = "use_graph_division_primitive" if fn in ("with_borders", "with_borders_grid") else "use_graph_primitive"
     use = flag if flag is not None else cfg[field]
     expect_native = bool(use) and fn != "avc_acyclic"
     tag = f"op#{n_op} {fn}(use_graph_primitive={flag!r}) with config.{field}={cfg[field]!r}"
     res.hit(f"graph:{fn}:" + ("explicit" if flag is not None else "default"))
+    reuse = _LAST_SOLVER.get("s") if op.get("same_solver") else None
+    if reuse is not None and _LAST_SOLVER.get("cspuz") is not cspuz:
+        reuse = None  # the process was restarted since
+    n_before = len(reuse.constraints) if reuse is not None else 0
+    if reuse is not None:
+        res.hit("graph:same_solver_as_previous_call")
     try:
-        s = _call_graph(cspuz, fn, flag)
+        s = _call_graph(cspuz, fn, flag, reuse)
+        _LAST_SOLVER["s"] = s
+        _LAST_SOLVER["cspuz"] = cspuz
     except RuntimeError as e:
         if fn == "single_path" and not use:
             res.hit("graph:single_path_todo_runtimeerror")
@@ -569,7 +589,7 @@ def _do_graph(res, cspuz, n_op, op, cfg):
     except Exception as e:
         res.violate("C20/unexpected-exception", f"{tag} raised {type(e).__name__}: {str(e)[:100]}")
         return
-    native = _has_native(cspuz, s.constraints)
+    native = _has_native(cspuz, s.constraints[n_before:])
     res.log("op", n_op, "graph", fn, flag, cfg[field], native)
     res.hit("graph:native" if native else "graph:encoded")
     if fn == "avc_acyclic" and native:
@@ -599,5 +619,7 @@ def shrink_candidates(sc):
     for n, op in enumerate(ops):
         if op["op"] == "graph" and op["flag"] is not None and op["fn"] != "avc":
             yield dict(sc, ops=ops[:n] + [dict(op, fn="avc")] + ops[n + 1 :])
+        if op["op"] == "graph" and op.get("same_solver"):
+            yield dict(sc, ops=ops[:n] + [dict(op, same_solver=False)] + ops[n + 1 :])
         if op["op"] == "call" and op["kind"] == "solve":
             yield dict(sc, ops=ops[:n] + [dict(op, kind="find_answer")] + ops[n + 1 :])
